@@ -1,7 +1,7 @@
 META = {
     "level": "model_checking",
-    "technique": "TLA+ model of the client connection lifecycle (key-exchange packets as Transport.run() accepts them, _verify_key, initial_kex_done, the auth_* guard, the point where an armed request is transmitted) under an arbitrary peer, composed with the host-key decision of Transport.connect(hostkey=) and SSHClient.connect (known_hosts lookup by host / [host]:port, hashed entries, system-before-user tables, key-type preference, missing-host-key policies) (HostKeyGate.tla), model-checked by TLC with mutated models; TLC enumerates the decision table, every case is rendered to known_hosts files / arguments and run as a real connection over netsched against a real server Transport whose tap keeps every decrypted payload; auth_* calls are made at every lifecycle point with the handshake frozen by the link; all observations are judged by TLC (HostKeyGate_Trace.tla)",
-    "text": "TLC checks that a credential leaves the client only encrypted, after a verified host-key signature and completed initial key exchange, never as the delayed effect of an authentication attempt made earlier, never to a server whose key differs from the one given / known, and to an unknown server only after the policy accepted it; four mutated models (no kex guard, no kex guard and no expected-packet enforcement, type-only key comparison, policy skipped) break it. The TLC-enumerated table (known_hosts entries x port form x policy x server key set x expected key) and seeded larger configurations are executed with real SSHClient / Transport.connect calls; every auth_* method of Transport and ServiceRequestingTransport is called before start, at four frozen mid-handshake points, in the open session, after local / peer close and after a handshake whose host-key signature was corrupted in transit; the server-side tap (USERAUTH_REQUEST / INFO_RESPONSE payloads), the wire log (plaintext packets, secret strings) and the policy's view are validated by TLC",
+    "technique": "TLA+ model of the client connection lifecycle (key-exchange packets as Transport.run() accepts them, _verify_key, initial_kex_done, the auth_* guard, the point where an armed request is transmitted) under an arbitrary peer, composed with the host-key decision of Transport.connect(hostkey=) and SSHClient.connect (known_hosts lookup by host / [host]:port, hashed entries, system-before-user tables, key-type preference, missing-host-key policies, the gss_kex / gss_auth arguments against a peer that does no GSS) (HostKeyGate.tla), model-checked by TLC with mutated models; TLC enumerates the decision table, every case is rendered to known_hosts files / arguments and run as a real connection over netsched against a real server Transport whose tap keeps every decrypted payload; auth_* calls are made at every lifecycle point with the handshake frozen by the link; all observations are judged by TLC (HostKeyGate_Trace.tla)",
+    "text": "TLC checks that a credential leaves the client only encrypted, after a verified host-key signature and completed initial key exchange, never as the delayed effect of an authentication attempt made earlier, never to a server whose key differs from the one given / known, and to an unknown server only after the policy accepted it; five mutated models (no kex guard, no kex guard and no expected-packet enforcement, type-only key comparison, fallback to password after a merely requested GSS key exchange, policy skipped) break it. The TLC-enumerated table (known_hosts entries x port form x policy x server key set x expected key) and seeded larger configurations are executed with real SSHClient / Transport.connect calls; every auth_* method of Transport and ServiceRequestingTransport is called before start, at four frozen mid-handshake points, in the open session, after local / peer close and after a handshake whose host-key signature was corrupted in transit; the server-side tap (USERAUTH_REQUEST / INFO_RESPONSE payloads), the wire log (plaintext packets, secret strings) and the policy's view are validated by TLC",
     "note": "trusted: TLC, netsched link + payload tap, the renderer that writes known_hosts lines (hashed names computed with hmac-sha1 independently of paramiko), the bundled test keys standing for the model's key identities. Reading of the lifecycle quantifier: an auth_* call made before the initial key exchange completed must not lead to a credential being transmitted, even later (the literal 'only after' is also checked); auth-protocol messages without a credential (SERVICE_REQUEST, method none) sent to a server that must be refused are reported as conformance only. GSS-API methods are only exercised at points where they must be refused; re-keying is not a lifecycle point here.",
 }
 import random
@@ -9,13 +9,15 @@ from harness.core import cfg_text, Machinery
 from harness.drivers import client as cl
 
 POLICIES = ["Reject", "AutoAdd", "Warning", "CustomAccept", "CustomReject"]
+GSS = ["none", "kex", "auth", "both"]
 
 
 def consts(**kw):
     d = {"KeyTypes": {"ed", "rsa"}, "DefaultOrder": "<-Order2", "KeyIds": "@{1, 2}", "Names": {"h", "[h]:p", "other"},
          "Policies": set(POLICIES), "MaxEntries": 1, "Apis": {"raw", "connect", "sshclient"}, "ServerSets": "<-Srv2",
          "Methods": {"password", "publickey", "interactive"},
-         "GuardKex": True, "EnforceExpected": True, "CompareFullKey": True, "AskPolicy": True}
+         "GuardKex": True, "EnforceExpected": True, "CompareFullKey": True, "AskPolicy": True,
+         "ConGss": set(GSS), "SshGss": {"none"}, "GssFallback": False}
     d.update(kw)
     return d
 
@@ -23,13 +25,14 @@ def consts(**kw):
 def label(cfg):
     """stable name of a configuration class (for violation keys only)"""
     if cfg["api"] == "connect":
-        return "connect:expect=%s%d" % (cfg["expect"]["t"], cfg["expect"]["id"])
+        return "connect:expect=%s%d:gss=%s" % (cfg["expect"]["t"], cfg["expect"]["id"], cfg["gss"])
     if cfg["api"] == "raw":
         return "raw"
     want = "h" if cfg["port"] == "default" else "[h]:p"
     hit = [e for e in cfg["sys"] + cfg["usr"] if e["name"] == want]
-    return "sshclient:%s:%s%s" % (cfg["port"], "known" if hit else "unknown:" + cfg["policy"],
-                                  ":hashed" if any(e["hashed"] for e in hit) else "")
+    return "sshclient:%s:%s%s%s" % (cfg["port"], "known" if hit else "unknown:" + cfg["policy"],
+                                    ":hashed" if any(e["hashed"] for e in hit) else "",
+                                    "" if cfg["gss"] == "none" else ":gss=" + cfg["gss"])
 
 
 def random_cfg(rnd):
@@ -39,7 +42,8 @@ def random_cfg(rnd):
     server = [K(t, 1) for t in types if rnd.random() < 0.6] or [K(rnd.choice(types), 1)]
     if rnd.random() < 0.2:
         return {"api": "connect", "expect": rnd.choice([dict(cl.NOKEY)] + [K(t, i) for t in types for i in (1, 2)]),
-                "sys": [], "usr": [], "policy": "Reject", "port": "default", "server": server}
+                "sys": [], "usr": [], "policy": "Reject", "port": "default", "server": server,
+                "gss": rnd.choice(GSS)}
     ents = []
     for _ in range(rnd.choice([0, 1, 1, 2, 2, 3, 4])):
         ents.append({"name": rnd.choice(["h", "h", "[h]:p", "[h]:p", "other"]), "hashed": rnd.random() < 0.4,
@@ -54,12 +58,14 @@ def random_cfg(rnd):
         seen.add(k)
         (sys_ if tab == "sys" else usr).append(e)
     return {"api": "sshclient", "expect": dict(cl.NOKEY), "sys": sys_, "usr": usr, "policy": rnd.choice(POLICIES),
-            "port": rnd.choice(["default", "other"]), "server": server}
+            "port": rnd.choice(["default", "other"]), "server": server,
+            "gss": rnd.choice(["none", "none", "kex", "auth", "both"])}
 
 
 def run(c):
     rnd = random.Random(c.seed)
-    small = dict(Names={"h", "[h]:p"}, Policies={"Reject", "AutoAdd", "CustomReject"}) if c.quick else {}
+    small = dict(Names={"h", "[h]:p"}, Policies={"Reject", "AutoAdd", "CustomReject"}, SshGss={"none", "both"}) if c.quick \
+        else dict(SshGss=set(GSS))
     jobs = [dict(name="lifecycle x callers, arbitrary peer (C17)", module="HostKeyGate", kw={"workers": 4},
                  cfg=cfg_text(constants=consts(**small), invariants=["C17"])),
             dict(name="sensitivity: auth_* without the initial_kex_done guard", module="HostKeyGate", expect="NoEarlyAttempt",
@@ -69,6 +75,8 @@ def run(c):
                  cfg=cfg_text(constants=consts(Apis={"raw"}, GuardKex=False, EnforceExpected=False), invariants=["SecretSecure"])),
             dict(name="sensitivity: Transport.connect compares the key type only", module="HostKeyGate", expect="Gate",
                  cfg=cfg_text(constants=consts(Apis={"connect"}, CompareFullKey=False), invariants=["Gate"])),
+            dict(name="sensitivity: Transport.connect falls back to password after a GSS kex that was only requested", module="HostKeyGate",
+                 expect="Gate", cfg=cfg_text(constants=consts(Apis={"connect"}, GssFallback=True), invariants=["Gate"])),
             dict(name="sensitivity: SSHClient skips the missing-host-key policy", module="HostKeyGate", expect="Gate",
                  cfg=cfg_text(constants=consts(Apis={"sshclient"}, MaxEntries=0, AskPolicy=False), invariants=["Gate"])),
             dict(name="decision table", module="HostKeyGate", kw={"workers": 1},
@@ -102,7 +110,7 @@ def run(c):
         # ---- the callers against a handshake whose host-key signature does not verify
         K = lambda t, i: {"t": t, "id": i}
         base = {"api": "sshclient", "expect": dict(cl.NOKEY), "sys": [], "usr": [], "policy": "Reject", "port": "default",
-                "server": [K("ed", 1)]}
+                "server": [K("ed", 1)], "gss": "none"}
         for upd in ({"api": "connect", "expect": K("ed", 1)}, {"api": "connect"}, {"usr": [{"name": "h", "hashed": False, "key": K("ed", 1)}]},
                     {"policy": "AutoAdd"}, {"policy": "CustomAccept", "port": "other"}):
             cfg = dict(base, **upd)
@@ -112,7 +120,7 @@ def run(c):
             c.case(key=("badsig", repr(cfg)))
         # ---- lifecycle: every auth method at every point
         raw = {"api": "raw", "expect": dict(cl.NOKEY), "sys": [], "usr": [], "policy": "Reject", "port": "default",
-               "server": [{"t": "ed", "id": 1}]}
+               "server": [{"t": "ed", "id": 1}], "gss": "none"}
         for cls in ("Transport", "ServiceRequestingTransport"):
             for point in cl.POINTS:
                 for m in cl.METHODS:
@@ -185,12 +193,13 @@ def run(c):
     n_life = sum(1 for x in info if x[0] == "life")
     c.rule = ("table: TLC enumerates {0 or 1 known_hosts entry (name h / [h]:p / other x hashed x key type ed,rsa x key id 1,2 x "
               "system or user table)} x port form x policy (5, when nothing matches) x server key set, and Transport.connect "
-              "expected key (none + 4) x server key set = %d cases; %s executed as real connections (password or public-key "
+              "expected key (none + 4) x server key set x GSS flags requested (none / gss_kex / gss_auth / both; the peer never "
+              "does GSS) = %d cases; %s executed as real connections (password or public-key "
               "credential); + %d seeded configurations with 3 key types and up to 4 entries; + %d auth_* calls (9 entry points x "
               "9 lifecycle points x Transport / ServiceRequestingTransport); distinct = (configuration, credential) and "
               "(point, method, class)" % (len(cases), "a stratified seeded sample of %d" % len(chosen) if c.quick else "all",
                                           sum(1 for x in info if x[0] == "random"), n_life))
     c.extra["exhaustive"] = not c.quick
     c.assumptions = ["the peer in real runs is an honest paramiko server holding the configured keys (arbitrary peers are explored in the model only)",
-                     "GSS-API key exchange / authentication are not exercised beyond the guard",
+                     "no GSS-API library: a GSS key exchange / authentication never takes place; what is examined is what the callers do with gss_kex / gss_auth / gss_deleg_creds when the peer negotiates an ordinary key exchange (SSHClient's transport is built without gss_kex for that reason)",
                      "known_hosts tables do not hold two entries for the same (name, key type) within one table"]
